@@ -6,6 +6,7 @@ from vstat.terms import dict_entries, builder, show, SELF, NONE, G, alts, walk, 
 from vstat.guards import path_conditions
 from vstat.cfg import cfg_of
 from vstat import algebra, scipyinfo
+from .kwdict import local_dict_stores
 from .distfam import SLOT_TABLE, P, A, expected_slot
 
 
@@ -43,28 +44,7 @@ class MleInfo:
                 self._collect_kw()
 
     def _collect_kw(self):
-        nm = self.kw_name
-        for st in self.cfg.all_stmts():
-            if isinstance(st, ast.Assign):
-                for tg in st.targets:
-                    if isinstance(tg, ast.Name) and tg.id == nm:
-                        t = self.b.term(st.value, st)
-                        ents = dict_entries(t)
-                        if ents is None:
-                            raise AnalysisError(f"{self.fn.qualname}: {nm} is not initialised with an enumerable dict (display, ** merge, filtered copy)")
-                        for k, v, lits in ents:
-                            if k[0] != "const":
-                                raise AnalysisError(f"{self.fn.qualname}: non-constant key in {nm}")
-                            self.kw_stores.append((k[1], v, tuple(self.pcs.of(st)) + tuple(lits), st))
-                    elif isinstance(tg, ast.Subscript) and isinstance(tg.value, ast.Name) and tg.value.id == nm:
-                        k = self.b.term(tg.slice, st)
-                        if k[0] != "const":
-                            raise AnalysisError(f"{self.fn.qualname}: non-constant key stored into {nm}")
-                        self.kw_stores.append((k[1], self.b.term(st.value, st), self.pcs.of(st), st))
-            elif isinstance(st, ast.Expr) and isinstance(st.value, ast.Call):
-                f = st.value.func
-                if isinstance(f, ast.Attribute) and isinstance(f.value, ast.Name) and f.value.id == nm and f.attr in ("update", "setdefault", "pop"):
-                    raise AnalysisError(f"{self.fn.qualname}: {nm}.{f.attr}() is not modelled")
+        self.kw_stores = local_dict_stores(self.fn, self.b, self.pcs, self.kw_name)
 
     def slot_of(self, par):
         """(index, scipy name, kind) of the slot parameter par feeds, from the frozen table."""
